@@ -257,3 +257,37 @@ pub fn e2e_event(case: &Value) -> Value {
     }
     ev
 }
+
+fn compile_both_levels(src: &str) -> Value {
+    let res = catch_unwind(AssertUnwindSafe(|| {
+        let p = RoocParser::new(src.to_string());
+        let model = match p.parse_and_transform(vec![], &IndexMap::new()) {
+            Ok(m) => m,
+            Err(e) => return json!({"out":"front_error","why":e}),
+        };
+        let names: Vec<String> = model.constraints().iter().map(|c| c.name().to_string()).collect();
+        let mut decl: Vec<Value> = model
+            .domain()
+            .iter()
+            .map(|(n, d)| json!({"name":n,"type":d.get_type().to_string(),"used":d.is_used()}))
+            .collect();
+        decl.sort_by(|a, b| a["name"].as_str().cmp(&b["name"].as_str()));
+        let modeltext = model.to_string();
+        match rooc::Linearizer::linearize(model) {
+            Ok(lm) => json!({"out":"ok","lm":lm_bits(&lm),"connames":names,"decl":decl,"modeltext":modeltext,"lmtext":lm.to_string()}),
+            Err(e) => json!({"out":"linearize_error","why":e.to_string()}),
+        }
+    }));
+    res.unwrap_or_else(|p| json!({"out":"panic","why":panic_msg(p)}))
+}
+
+/// C06: a program with data-driven constructs and its hand-unrolled twin.
+pub fn expand_event(case: &Value) -> Value {
+    json!({
+        "id": case["id"],
+        "prog": case["prog"],
+        "unrolled": case["unrolled"],
+        "a": compile_both_levels(case["prog"].as_str().unwrap()),
+        "b": compile_both_levels(case["unrolled"].as_str().unwrap()),
+    })
+}
